@@ -91,10 +91,12 @@ def SB.add (b : SB α) (parent : Nat) (E : M3 α) (r : V3 α) (j : JDesc α)
          mid, mid⟩
       (nodes ++ [nd], nodes.length, nvAcc + sj.dof, mid + 1))
       (b.M.nodes, b.nodeOf parent, nv, b.nMovable)
-    let (nodes, lastIdx, _, mid) := res
+    let (nodes, _, _, mid) := res
     let id := mid - 1
+    -- every body of the chain (the massless intermediates too) can be addressed by its id
+    let newMap := (List.range n).map (fun k => (b.nMovable + k, first, first + k))
     ({ b with M := { b.M with nodes := nodes }, nMovable := mid,
-              idMap := b.idMap ++ [(id, first, lastIdx)] }, some id)
+              idMap := b.idMap ++ newMap }, some id)
 
 /-- assign the quaternion `w` indices: after all other coordinates, in insertion order -/
 def SModel.finalize (M : SModel α) : SModel α :=
